@@ -63,9 +63,9 @@ CHECKS = {
  "C16": dict(text="Proof (Coq): in the SQLite WAL abstraction, transactions that begin IMMEDIATE or never write after a read never get SQLITE_BUSY, for any number of connections and any interleaving (C16_no_busy); the transaction sites regenerated from the CURRENT source by tools/anchors.py all obey the rule (C16_sites_ok, re-checked on every run), hence no command of the code can fail with a busy error (C16_code_no_busy); the rule is necessary (two-connection refutation, findings F10a/F16). Ties: the abstraction is compared with the real SQLite library on every interleaving of two transactions; Anchors.v is regenerated from the working tree. Oracle: stress runs of simultaneous commands beside a -j4 build (incl. first invocations on an empty project), looking for busy/locked errors, lost dependency records and integrity_check failures; when the proof obligation breaks the stress run is used to find a concrete failing command.",
     note=TB + " tools/anchors.py (translator and its per-site access-pattern table) is trusted; A-TIMEOUT.",
     technique="Coq proof over a WAL locking abstraction + obligation regenerated from the source on every run + differential test of the abstraction against SQLite", ref="5/C16"),
- "C17": dict(text="Proof (Coq): the three query commands change nothing but the run-id counter (files, rows, dependency records identical); targets and sources are disjoint; what is in neither list is a special name or a file missing on disk; the ood walk touches no file. The two bounds on redo-ood are decided against the implementation. " + SERIAL,
+ "C17": dict(text="Proof (Coq): the three query commands change nothing but the run-id counter (files, rows, dependency records identical); targets and sources are disjoint; what is in neither list is a special name or a file missing on disk; the ood walk touches no file; redo-ood's dirtiness walk (set in memory) and the builder's (checked_runid in the database, rows judged on copies) return the same verdicts for any list of targets whenever both return, from any state at the start of a run (C17_ood_agrees_with_builder: simulation with a 'settled rows' invariant, Build/OodAgree.v) -- the lower-bound clause on the model. The bounds on redo-ood are also decided against the implementation (paired runs with and without queries, lower bound). " + SERIAL,
     note=TB + " redo-ood's rolled-back write is modelled as discarded.",
-    technique="Coq proof of read-only/partition facts + model/implementation differential check with query commands at every point", ref="5/C17"),
+    technique="Coq proof of read-only/partition facts and of the agreement of redo-ood's walk with the builder's (simulation) + model/implementation differential check with query commands at every point", ref="5/C17"),
  "C18": dict(text="Proof (Coq): (a) format/parse round trip for every well-formed record (text may contain '@@ ' or '@@REDO:'), soundness of parse, done-record round trip. Tie: exhaustive small strings + random + malformed stream, model vs redo::logs::Meta. Part (b): the follower's partial-line buffer is modelled (LogRec/Assemble.v) and proved to lose/duplicate nothing and to emit the same lines for every fragmentation of the log's bytes (C18_fragmentation_independent); the rest of (b) is decided on the implementation: numbered stderr lines (long, trailing blanks, unterminated, one line delivered in 3-5 fragments) at -j1..4 must appear once, in order, under their own target in the live output and in redo-log -r; catlog is not modelled in Coq (PARTIAL); finding F11 is known.",
     note=TB + " f64 timestamps modelled as integers in 1e-4 s; signs/exponents/inf/nan in timestamps are outside the model.",
     technique="Coq proof (round trip) + exhaustive model/implementation differential check", ref="5/C18"),
